@@ -78,6 +78,14 @@ func PathOf(v ssa.Value) string {
 			if prm, ok := src.(*ssa.Parameter); ok {
 				return PathOf(prm)
 			}
+			// a local initialised once with a copy of a rooted value
+			// (`meta := v.Payload.Index`) and never written through afterwards
+			// names the same value as what it was copied from
+			if !writtenThrough(x) {
+				if p := PathOf(src); strings.Contains(p, ".") {
+					return p
+				}
+			}
 		}
 		// a local: name by its declared name plus identity (two locals may share a name)
 		if x.Comment != "" {
@@ -276,4 +284,57 @@ func CheckGuarded(fn *ssa.Function, spec LockSpec, entry []string, mutexField st
 		}
 	}
 	return out
+}
+
+// writtenThrough reports whether a field or element of the local cell is
+// assigned (directly or through a captured reference) after its creation.
+func writtenThrough(a *ssa.Alloc) bool {
+	var visit func(addr ssa.Value, depth int) bool
+	visit = func(addr ssa.Value, depth int) bool {
+		if depth > 4 {
+			return true
+		}
+		refs := addr.Referrers()
+		if refs == nil {
+			return false
+		}
+		for _, r := range *refs {
+			switch y := r.(type) {
+			case *ssa.FieldAddr:
+				if y.X == addr {
+					if frefs := y.Referrers(); frefs != nil {
+						for _, fr := range *frefs {
+							if st, ok := fr.(*ssa.Store); ok && st.Addr == ssa.Value(y) {
+								return true
+							}
+						}
+					}
+					if visit(y, depth+1) {
+						return true
+					}
+				}
+			case *ssa.IndexAddr:
+				if y.X == addr {
+					if frefs := y.Referrers(); frefs != nil {
+						for _, fr := range *frefs {
+							if st, ok := fr.(*ssa.Store); ok && st.Addr == ssa.Value(y) {
+								return true
+							}
+						}
+					}
+				}
+			case ssa.CallInstruction:
+				// the address escapes to a call: assume it may be written
+				for _, arg := range y.Common().Args {
+					if arg == addr {
+						return true
+					}
+				}
+			case *ssa.MakeClosure:
+				return true
+			}
+		}
+		return false
+	}
+	return visit(a, 0)
 }
